@@ -27,8 +27,30 @@ def uses_map(w):
     return out
 
 
+def late_child_scenario(rng, i):
+    """a parent that has already ended is shown a child that ends later: an act revived by its catch is answered by the client while its catch
+    steps are still open (the act and its step end), and the catch steps are answered afterwards; or a step ends over an open act"""
+    handler = [{"id": "cs1", "acts": [{"id": "ca1", "uses": gen.IRQ, "key": "kca1"}] + ([{"id": "ca2", "uses": gen.MSG, "key": "kca2"}] if rng.chance(1, 2) else [])}]
+    a1 = {"id": "a1", "uses": gen.IRQ, "key": "ka1"}
+    s1 = {"id": "s1", "acts": [a1] + ([{"id": "a2", "uses": gen.IRQ, "key": "ka2"}] if rng.chance(1, 2) else [])}
+    if rng.chance(2, 3):
+        a1["catches"] = [{"on": "e1", "steps": handler}]
+    else:
+        s1["catches"] = [{"on": "e1", "steps": handler}]
+    w = {"id": "m1", "steps": [s1, {"id": "s2", "acts": [{"id": "a9", "uses": gen.IRQ, "key": "ka9"}]}]}
+    ops = [["deploy", 0], ["start", "m1", {"pid": "p1", "x": 0, "y": 0}], ["runall"],
+           ["act", "error", "p1", {"nid": "a1", "k": 0}, {"ecode": "e1", "message": "x"}], ["runall"],
+           ["act", rng.pick(["next", "next", "submit", "skip"]), "p1", {"nid": "a1", "k": 0}, {}], ["runall"]]
+    for _ in range(6):
+        ops.append(["act", "next", "p1", {"open": rng.below(2)}, {}])
+        ops.append(["runall", rng.pick(["fifo", "lifo"]), rng.below(1 << 30)])
+    return {"id": f"c08-late-{i}", "config": {"keep": rng.chance(1, 2), "dump_each": False}, "models": [w], "ops": ops, "exprs": {}, "features": ["catch", "late-child"]}
+
+
 def gen_scenario(seed, i):
     rng = Rng(seed * 472882027 + i)
+    if i % 10 == 9:
+        return late_child_scenario(rng, i)
     g = gen.WfGen(rng.fork("wf"), depth=rng.pick([1, 2, 2]), max_steps=3, max_branches=3, max_acts=3, p_if=15, p_branches=40,
                   needs=rng.chance(1, 5), mixed=rng.chance(1, 6), act_kinds=((gen.IRQ, 5), (gen.MSG, 3), (gen.SET, 1)), catches=rng.chance(1, 3))
     w = g.workflow("m1")
